@@ -264,6 +264,7 @@ def step(ctx, rig, ev, hist):
             bad("rejected-notified", "rejected assignment called handlers")
         return good
     if kind.startswith("Event"):
+        rig.fired = getattr(rig, "fired", 0) + 1
         ctx.outcome("event-fired")
         ctx.nontriv((kind, mode, "event", ev[1]))
         if after is not MISSING:
@@ -361,6 +362,10 @@ def shards(tier):
 
 def canon(rig):
     x = rig.o.__dict__.get("x", MISSING)
+    if rig.kind.startswith("Event"):
+        # events store nothing; the number of firings so far (capped) is
+        # kept apart so that repeated firings are explored
+        return "fired:%d" % min(getattr(rig, "fired", 0), 2)
     if x is MISSING:
         return "unset"
     for tok, val in POOL.items():
@@ -409,6 +414,8 @@ def replay_quiet(rig, ev):
             rig.o.x
         else:
             rig.o.x = POOL[ev[1]]
+            if rig.kind.startswith("Event"):
+                rig.fired = getattr(rig, "fired", 0) + 1
     except Exception:
         pass
 
